@@ -93,11 +93,13 @@ CLAIMS["C07"] = ("symbolic execution (symx) of the real IdentityCMap(.Byte).deco
          "syntaxes with symbolic codes and widths give exactly the listed code->width entries; the CMapDB caches return the right map for every 3-call history. NOT claimed: the predefined CJK tables and the "
          "'agrees with platform codecs' clause (static data), embedded TrueType cmap tables.",
          "4.C07")
-CLAIMS["C10"] = ("bounded symbolic execution (symx) of the plumbing around the cipher primitives: init_params/is_*able, decipher_all + getobj, unpad_aes/decrypt_aes128/256, decrypt_rc4 key material, V4 decrypt - with md5/AES/RC4 replaced by recording stubs",
-         "PARTIAL by design: key derivation, password acceptance/rejection and cipher correctness (MD5/SHA/AES/RC4 loops behind C code) are NOT claimed. Claimed for all values within bounds: permission flags equal "
-         "bits 3,4,5 of every signed 32-bit P; every non-empty string leaf of an object is deciphered exactly once with the enclosing (objid, genno) and object-stream members not at all, with caching on or off; "
-         "PKCS#5 padding of every length 1..16 is removed from symbolic plaintext; the per-object key material is key + objid[0:3] + genno[0:2] little-endian (+ sAlT) for symbolic objid/genno; "
-         "EncryptMetadata=false bypasses exactly /Type /Metadata streams.",
+CLAIMS["C10"] = ("bounded symbolic execution (symx) of the security handlers: key derivation and password authentication (R2-R6) with md5/SHA/RC4/AES as z3 uninterpreted functions (equality of derived keys decided "
+         "by congruence against ISO 32000-1 Algorithms 2-7 / ISO 32000-2 Algorithms 2.A, 2.B), and the plumbing around the primitives (init_params/is_*able, decipher_all + getobj, unpad_aes, per-object keys, V4 decrypt) with recording stubs",
+         "PARTIAL by design: cipher/hash correctness (C code, XOR loops), rejection of wrong passwords (needs collision resistance) and SASLprep are NOT claimed. Claimed for all values within bounds: for R2, R3 (40/56/128-bit), R4 "
+         "(EncryptMetadata on/off) every user and owner password of 0/1/33 symbolic bytes, every signed 32-bit P and symbolic ID derive exactly the Algorithm-2 file key and are accepted; R5/R6 authenticate recovers the file key from "
+         "UE/OE for both passwords; _r6_password equals Algorithm 2.B for 64..66 rounds under 2 (quick) / 5 (thorough) SHA-selection patterns; permission flags equal bits 3,4,5 of every signed 32-bit P; every non-empty string leaf "
+         "is deciphered exactly once with the enclosing (objid, genno) and object-stream members not at all, caching on or off; PKCS#5 padding of every length 1..16 is removed; per-object key material is key + objid[0:3] + genno[0:2] "
+         "(+ sAlT) for symbolic objid/genno; EncryptMetadata=false bypasses exactly /Type /Metadata streams.",
          "4.C10")
 CLAIMS["C13"] = ("symbolic execution (symx) of the typed accessors, tree/chain walkers and leaf decoders on symbolically chosen damaged values and symbolic bytes; single-fault sweep of a seed document through the real extract_text driven by symbolic choices",
          "PARTIAL by design (fault sequences over whole real documents are whole-program runs): for every reference graph over 3 objects (self-loops, cycles, dangling) and every value kind each accessor terminates "
